@@ -22,6 +22,7 @@ def run(ctx):
     h = ctx.build_harness()
     hr = ctx.build_harness(race=True)
     ctx.tlc_must_pass("Pipelines", "MC_Pipelines", timeout=900)
+    ctx.tlc_must_pass("Pipelines", "MC_Pipelines4", timeout=900)          # four instances
     gen = os.path.join(ctx.tmp, "sched.out")
     g = ctx.tlc("Pipelines", "GEN_Pipelines", timeout=1800, out_file=gen)
     if g["error"] or not g["finished"]:
@@ -71,7 +72,7 @@ def run(ctx):
         for line in open(mis2):
             m = json.loads(line)
             ctx.violation("free:%s:%s" % (m["kind"], m["key"]), "while running concurrently: " + m["key"], m)
-    mc = ctx.mc[0]
+    mc = dict(distinct=sum(m["distinct"] for m in ctx.mc), generated=sum(m["generated"] for m in ctx.mc))
     cov = dict(states=mc["distinct"], transitions=mc["generated"],
                traces_validated_against_impl=ss["schedules"],
                samples=[dict(schedule=[1, 1, 2, 3, 2, 1, 3], meaning="instance numbers in the order their gated calls are released; 1 + (position mod 4) calls per token"),
